@@ -109,17 +109,19 @@ def logicToks (logic : Nat) : List String :=
   (if logic = 1 then ["AND"] else []) ++ (if logic = 2 then ["OR"] else [])
 
 /-- `RstAction::Condition` + `tokens()`.  A DAY / MNTH / YEAR condition (IACN quantity type 10 / 11 / 12) is rebuilt
-from the type alone: canonical name, the constant (MNTH: the month NAME of the truncated value), and the constructor
-returns BEFORE the parenthesis slot is read — such a condition never carries a parenthesis.
+from the type alone: canonical name, the constant (MNTH: the month NAME of the truncated value); the parenthesis slot is
+read for these conditions like for all others (as of c33735bed; before it the constructor returned early).
 `none` = `format_double` is not defined for the constant, or the month index is out of range (the reader throws). -/
 def rstTokens (c : RstCond) : Option (List String) :=
   if c.lhs = "DAY" ∨ c.lhs = "YEAR" then
     match c.rhs with
-    | .value b => (fmtDouble b).map fun s => c.lhs :: cmpString c.op :: String.ofList s :: logicToks c.logic
+    | .value b => (fmtDouble b).map fun s =>
+        (if c.lp then ["("] else []) ++ c.lhs :: cmpString c.op :: String.ofList s :: ((if c.rp then [")"] else []) ++ logicToks c.logic)
     | .name _ _ => none
   else if c.lhs = "MNTH" then
     match c.rhs with
-    | .value b => (monthToken b).map fun mn => "MNTH" :: cmpString c.op :: mn :: logicToks c.logic
+    | .value b => (monthToken b).map fun mn =>
+        (if c.lp then ["("] else []) ++ "MNTH" :: cmpString c.op :: mn :: ((if c.rp then [")"] else []) ++ logicToks c.logic)
     | .name _ _ => none
   else
   let rhs : Option (List String) := match c.rhs with
